@@ -234,10 +234,22 @@ def run_containers(task, seed):
     class MarkerOnly(RateLimitError):
         """RATE_LIMIT through the marker type alone: no numeric status anywhere."""
 
+    class PropExc(Exception):
+        """headers / response are properties (urllib.error.HTTPError.headers is one)."""
+        status = 429
+        _h = _r = None
+        headers = property(lambda self: self._h, lambda self, v: setattr(self, "_h", v))
+        response = property(lambda self: self._r, lambda self, v: setattr(self, "_r", v))
+
+    class SlotExc(Exception):
+        """the carriers live in __slots__ (descriptor-backed, absent until assigned)."""
+        __slots__ = ("headers", "response", "retry_after")
+        status = 429
+
     for (sname, mk, must_find), v, where, exc_type in itertools.product(
             shapes, values, ["headers", "response", "response+empty-dict", "response+empty-list"],
-            [Exc429, MarkerOnly]):
-        if exc_type is MarkerOnly and where not in ("headers", "response"):
+            [Exc429, MarkerOnly, PropExc, SlotExc]):
+        if exc_type is not Exc429 and where not in ("headers", "response"):
             continue
         e = exc_type("x")
         if where == "headers":
@@ -251,7 +263,8 @@ def run_containers(task, seed):
             elif where == "response+empty-list":
                 e.headers = []
         res["execs"] += 1
-        case = f"{sname} {where} value {show(v)}" + (" (marker-only exception)" if exc_type is MarkerOnly else "")
+        case = f"{sname} {where} value {show(v)}" + (
+            "" if exc_type is Exc429 else f" ({exc_type.__name__}: {(exc_type.__doc__ or '').strip()})")
         res["nontrivial"].add(hash(case))
         if must_find and isinstance(v, (str, int)) and not isinstance(v, bool) and v in ("120", 120):
             exp = ("exact", 120.0)
